@@ -1,7 +1,4 @@
-use std::{
-    io::{BufRead, ErrorKind, Result as IoResult},
-    slice,
-};
+use std::io::{BufRead, ErrorKind, Result as IoResult};
 
 use super::encoding::Encoding;
 
@@ -70,6 +67,27 @@ impl<R: BufRead> Decoder<R> {
         Ok(len + self.inner.read_until(b'\n', &mut self.read_buf)?)
     }
 
+    /// Reads a single byte or returns `None` if the end was reached.
+    fn read_byte(&mut self) -> IoResult<Option<u8>> {
+        if !self.head.is_empty() {
+            return Ok(Some(self.head.remove(0)));
+        }
+
+        loop {
+            match self.inner.fill_buf() {
+                Ok([byte, ..]) => {
+                    let byte = *byte;
+                    self.inner.consume(1);
+
+                    return Ok(Some(byte));
+                }
+                Ok([]) => return Ok(None),
+                Err(ref err) if err.kind() == ErrorKind::Interrupted => {}
+                Err(err) => return Err(err),
+            }
+        }
+    }
+
     pub fn read_line(&mut self) -> IoResult<Option<&str>> {
         self.read_buf.clear();
 
@@ -77,12 +95,28 @@ impl<R: BufRead> Decoder<R> {
             return Ok(None);
         }
 
-        // Reading up to b'\n' will miss the final b'\0' for an UTF-16LE encoded
-        // string so we need to read an additional byte.
-        if self.encoding == Encoding::Utf16LE && self.read_buf.ends_with(b"\n") {
-            let mut byte = 0;
-            self.inner.read_exact(slice::from_mut(&mut byte))?;
-            self.read_buf.push(byte);
+        // In UTF-16, `b'\n'` is only a line break if it is the low byte of the
+        // code unit U+000A so keep reading for any other code unit containing
+        // that byte, e.g. U+4E0A or U+0A41.
+        while self.encoding != Encoding::Utf8 && self.read_buf.ends_with(b"\n") {
+            let newline: &[u8] = if self.encoding == Encoding::Utf16LE {
+                // Reading up to b'\n' misses the high byte of the code unit
+                // so we need to read an additional byte if there is one.
+                let Some(byte) = self.read_byte()? else { break };
+                self.read_buf.push(byte);
+
+                b"\n\0"
+            } else {
+                b"\0\n"
+            };
+
+            if self.read_buf.len() % 2 == 0 && self.read_buf.ends_with(newline) {
+                break;
+            }
+
+            if self.read_until_newline()? == 0 {
+                break;
+            }
         }
 
         Ok(Some(self.curr_line()))
